@@ -1096,3 +1096,135 @@ Example ex_burst_fraction :
     {| s_center := 2; s_last := 0; s_next := 3; s_zx_rise := 1; s_zx_decay := 3; s_last_zx := 0 |}
   = 0.75%float.
 Proof. vm_compute. reflexivity. Qed.
+
+(* ------------------------------------------------------------------ *)
+(* WP3 (clause audit B.5): period consistency as the smaller min/max     *)
+(* ratio with the previous and the next period; monotonicity as the      *)
+(* mean of the two flank fractions over the INCLUSIVE flank slices.     *)
+
+Lemma zratio_def a b :
+  zratio a b = (FloatBase.Z2F (Z.min a b) / FloatBase.Z2F (Z.max a b))%float.
+Proof. reflexivity. Qed.
+
+Lemma zratio_sym a b : zratio a b = zratio b a.
+Proof. unfold zratio. rewrite (Z.min_comm a b), (Z.max_comm a b). reflexivity. Qed.
+
+(* interior cycle: the ratio of its own period with the next / the previous period, or the
+   smaller of the two *)
+Lemma period_cons_at_def d periods c :
+  period_cons_at d periods c =
+  match d with
+  | Both => fmin2 (zratio (nth c periods 0%Z) (nth (c + 1) periods 0%Z))
+                  (zratio (nth c periods 0%Z) (nth (c - 1) periods 0%Z))
+  | Next => zratio (nth c periods 0%Z) (nth (c + 1) periods 0%Z)
+  | Last => zratio (nth c periods 0%Z) (nth (c - 1) periods 0%Z)
+  end.
+Proof.
+  unfold period_cons_at. cbv zeta.
+  rewrite (zratio_sym (nth (c + 1) periods 0%Z) (nth c periods 0%Z)).
+  destruct d; reflexivity.
+Qed.
+
+Lemma SFcompare_notnan x y : x <> S754_nan -> y <> S754_nan -> SFcompare x y <> None.
+Proof.
+  destruct x as [sx|sx| |sx mx ex]; destruct y as [sy|sy| |sy my ey]; cbn [SFcompare];
+    intros Hx Hy; try congruence; try (destruct sx; discriminate); try (destruct sy; discriminate);
+    try (destruct sx, sy; discriminate).
+Qed.
+
+Lemma notnan_Prim2SF x : isnan x = false -> Prim2SF x <> S754_nan.
+Proof.
+  intros H E. apply isnan_Prim2SF in E. rewrite E in H. discriminate H.
+Qed.
+
+(* for non-NaN values (infinities and signed zeros included) "not y < x" is "x <= y" *)
+Lemma nltb_leb_notnan (x y : PrimFloat.float) : isnan x = false -> isnan y = false ->
+  (y <? x)%float = false -> (x <=? y)%float = true.
+Proof.
+  intros Nx Ny. rewrite ltb_spec, leb_spec. unfold SFltb, SFleb.
+  rewrite (SFcompare_swap (Prim2SF x) (Prim2SF y)).
+  assert (Hc := SFcompare_notnan _ _ (notnan_Prim2SF _ Nx) (notnan_Prim2SF _ Ny)).
+  destruct (SFcompare (Prim2SF x) (Prim2SF y)) as [[| |]|]; cbn [CompOpp]; intros H;
+    try reflexivity; try discriminate H. exfalso. apply Hc. reflexivity.
+Qed.
+
+Lemma leb_refl_notnan (x : PrimFloat.float) : isnan x = false -> (x <=? x)%float = true.
+Proof.
+  intros Nx. apply nltb_leb_notnan; try exact Nx.
+  destruct (x <? x)%float eqn:E; [|reflexivity].
+  rewrite (ltb_asym x x E) in E. discriminate E.
+Qed.
+
+(* np.min([a, b]): one of the two and not larger than either; NaN as soon as one is NaN *)
+Lemma fmin2_smaller a b : isnan a = false -> isnan b = false ->
+  (fmin2 a b = a \/ fmin2 a b = b) /\
+  (fmin2 a b <=? a)%float = true /\ (fmin2 a b <=? b)%float = true.
+Proof.
+  intros Na Nb. unfold fmin2. rewrite Na, Nb. destruct (b <? a)%float eqn:E.
+  - split; [right; reflexivity|]. split; [apply ltb_leb_all, E|apply leb_refl_notnan, Nb].
+  - split; [left; reflexivity|]. split; [apply leb_refl_notnan, Na|apply nltb_leb_notnan; assumption].
+Qed.
+
+Lemma fmin2_nan a b : isnan a = true \/ isnan b = true -> isnan (fmin2 a b) = true.
+Proof.
+  intros H. unfold fmin2. destruct (isnan a) eqn:Na; [exact Na|].
+  destruct H as [H|H]; [discriminate H|]. rewrite H. exact H.
+Qed.
+
+(* count / length *)
+Lemma frac_true_def l :
+  frac_true l = (FloatBase.Z2F (Z.of_nat (count_true l)) / FloatBase.Z2F (Z.of_nat (length l)))%float.
+Proof. reflexivity. Qed.
+
+(* centring-free form of monotonicity: the flank before the centre extremum rises for a
+   peak-centred row and decays for a trough-centred one; the flank after it does the opposite *)
+Lemma monotonicity_row_flanks peak sig r :
+  monotonicity_row peak sig r =
+  ((frac_true (steps peak (zslice sig (s_last r) (s_center r + 1))) +
+    frac_true (steps (negb peak) (zslice sig (s_center r) (s_next r + 1)))) / 2)%float.
+Proof.
+  unfold monotonicity_row. cbv zeta. destruct peak; cbn [negb].
+  - rewrite (add_comm (frac_true (steps false (zslice sig (s_center r) (s_next r + 1))))). reflexivity.
+  - reflexivity.
+Qed.
+
+Lemma nth_firstn_lt' {A} (l : list A) n k d : k < n -> nth k (firstn n l) d = nth k l d.
+Proof.
+  revert n k. induction l as [|x l IH]; intros n k H.
+  - rewrite firstn_nil. reflexivity.
+  - destruct n as [|n]; [lia|]. destruct k as [|k]; [reflexivity|]. cbn [firstn nth]. apply IH. lia.
+Qed.
+
+Lemma nth_skipn_add' {A} (l : list A) a k d : nth k (skipn a l) d = nth (a + k) l d.
+Proof.
+  revert a. induction l as [|x l IH]; intros a.
+  - rewrite skipn_nil. destruct k, a; reflexivity.
+  - destruct a as [|a]; [reflexivity|]. cbn [skipn plus nth]. apply IH.
+Qed.
+
+(* sig[a : b+1] holds the samples a, a+1, ..., b : both end points belong to the flank *)
+Lemma zslice_incl_nth {A} (l : list A) (a b : Z) k d :
+  (0 <= a)%Z -> (a <= b)%Z -> k <= Z.to_nat (b - a) ->
+  nth k (zslice l a (b + 1)) d = nth (Z.to_nat a + k) l d.
+Proof.
+  intros H0 Hab Hk. unfold zslice, slice.
+  rewrite nth_firstn_lt' by lia. apply nth_skipn_add'.
+Qed.
+
+(* a flank from sample a to sample b (inclusive) has exactly b - a steps, and step k compares the
+   consecutive samples a+k and a+k+1 of the signal, strictly *)
+Lemma flank_steps up (sig : list PrimFloat.float) (a b : Z) :
+  (0 <= a)%Z -> (a <= b)%Z -> (b < Z.of_nat (length sig))%Z ->
+  length (steps up (zslice sig a (b + 1))) = Z.to_nat (b - a) /\
+  forall k, k < Z.to_nat (b - a) ->
+    nth k (steps up (zslice sig a (b + 1))) false =
+    if up then (nth (Z.to_nat a + k) sig 0 <? nth (Z.to_nat a + S k) sig 0)%float
+    else (nth (Z.to_nat a + S k) sig 0 <? nth (Z.to_nat a + k) sig 0)%float.
+Proof.
+  intros H0 Hab Hb.
+  assert (L : length (zslice sig a (b + 1)) = Z.to_nat (b - a + 1)) by (apply zslice_length; lia).
+  split.
+  - rewrite steps_length, L. lia.
+  - intros k Hk. rewrite steps_spec by (rewrite L; lia).
+    rewrite !zslice_incl_nth by lia. reflexivity.
+Qed.
